@@ -16,7 +16,7 @@ GEN_AVOID = {"unsigned_byte"}
 
 
 # operators with several distinct damaged values: that many consecutive variants are enumerated per node
-VARIANTS = {"harmless": 3, "nsrebind": 2, "xsextreme": 6, "base64": 4, "xsliteral": 8, "wronglist": 3, "modeltype": 3, "enum": 3, "wrongtype": 3, "forbidden": 2,
+VARIANTS = {"lexeq": 6, "harmless": 3, "nsrebind": 2, "xsextreme": 6, "base64": 4, "xsliteral": 8, "wronglist": 3, "modeltype": 3, "enum": 3, "wrongtype": 3, "forbidden": 2,
             "overlong": 2}
 
 
@@ -95,13 +95,29 @@ def directed_typed():
     sm.submodel_element.add(model.Property("p", dt.Int, 5, qualifier=[model.Qualifier("q", dt.Int, 7)],
                                            extension=[model.Extension("e", dt.Int, 9)]))
     sm.submodel_element.add(model.Range("r", dt.Int, 1, 2))
-    sm.submodel_element.add(model.Blob("b", "application/octet-stream", b"ABC"))
+    sm.submodel_element.add(model.Blob("b", "application/octet-stream", bytes(range(7, 130))))
+    utc = datetime.timezone.utc
+    for i, (t, v) in enumerate([
+            (dt.Double, 5.5), (dt.Float, 0.25), (dt.Decimal, __import__("decimal").Decimal("1.50")), (dt.Boolean, True),
+            (dt.Boolean, False), (dt.DateTime, datetime.datetime(2020, 1, 2, 3, 4, 5, 120000, tzinfo=utc)),
+            (dt.Date, dt.Date(2020, 1, 2, utc)), (dt.Time, datetime.time(3, 4, 5, tzinfo=utc)),
+            (dt.Duration, dateutil.relativedelta.relativedelta(years=1, days=3, seconds=6)),
+            (dt.HexBinary, dt.HexBinary(b"\xab\xcd\x0f")), (dt.Base64Binary, dt.Base64Binary(bytes(range(100)))),
+            (dt.GYear, dt.GYear(2020, utc)), (dt.Long, 0), (dt.NonNegativeInteger, 17), (dt.Integer, -4),
+            (dt.Double, 100.0), (dt.Decimal, __import__("decimal").Decimal("7"))]):
+        sm.submodel_element.add(model.Property(f"t{i}", t, v))
+    sm.submodel_element.add(model.SubmodelElementList("ol", model.Capability, order_relevant=False))
+    cd = model.ConceptDescription("urn:verif:c09:typed:cd", id_short="cd")
+    cd.embedded_data_specifications.append(model.EmbeddedDataSpecification(
+        model.ExternalReference((model.Key(model.KeyTypes.GLOBAL_REFERENCE, "urn:ds"),)),
+        model.DataSpecificationIEC61360(model.PreferredNameTypeIEC61360({"en": "n"}),
+                                        level_types={model.IEC61360LevelType.MIN, model.IEC61360LevelType.MAX})))
     sm.submodel_element.add(model.BasicEventElement(
         "ev", r, model.Direction.OUTPUT, model.StateOfEvent.ON,
         last_update=datetime.datetime(2022, 11, 12, 23, 50, 23, tzinfo=datetime.timezone.utc),
         min_interval=dateutil.relativedelta.relativedelta(seconds=1),
         max_interval=dateutil.relativedelta.relativedelta(years=1, months=2, days=3, hours=4, minutes=5, seconds=6)))
-    return model.DictObjectStore([sm])
+    return model.DictObjectStore([sm, cd])
 
 
 def directed_arrays():
@@ -380,6 +396,9 @@ def enumerate_cases(rng, sources, budget, per_victim_nodes=None, forced_cap=None
                     base = rng.randrange(10 ** 6)
                     for v in range(nv):
                         specs.append((si, victim, tuple(witnesses), path, op, base + v, oid))
+                    if src.get("directed") and op == "lexeq":
+                        for v in range(8):
+                            forced.append((si, victim, tuple(witnesses), path, op, v, oid))
                     if src["name"].endswith("directed.typed") and op in ("xsextreme", "base64", "xsliteral"):
                         key = path[-1] if fmt == "json" else D._lname(D._xget(d, path))
                         n = {"base64": 10, "xsliteral": 8}.get(op) or (
@@ -400,8 +419,8 @@ def enumerate_cases(rng, sources, budget, per_victim_nodes=None, forced_cap=None
     forced = list(dict.fromkeys(forced))
     if forced_cap and len(forced) > forced_cap:
         # keep all directed white-space cases, thin out the array-position cases evenly (by hash, reproducible)
-        keep = [sp for sp in forced if sp[4] == "harmless"]
-        rest = sorted((sp for sp in forced if sp[4] != "harmless"), key=spec_hash)
+        keep = [sp for sp in forced if sp[4] in HARMLESS_OPS]
+        rest = sorted((sp for sp in forced if sp[4] not in HARMLESS_OPS), key=spec_hash)
         forced = keep + rest[:max(0, forced_cap - len(keep))]
     if budget and total > budget:
         # stratified by (format, operator): rare operators (duplicated id, wrong list, xs literal, base64, modelType)
@@ -445,7 +464,8 @@ def case_context(doc, fmt, path):
     return (D._lname(par) if par is not None else "-"), D._lname(el)
 
 
-NO_VICTIM_RULE = ("harmless", "wronglist")
+NO_VICTIM_RULE = ("harmless", "wronglist", "lexeq")
+HARMLESS_OPS = ("harmless", "lexeq")
 
 
 def delete_at(fmt, d, pre):
@@ -540,12 +560,12 @@ def run_spec(sources, spec):
     damaged = {victim[2]}
     if op == "dupid" and len(path) == 3:
         damaged.add(oid)
-    if op == "harmless":
+    if op in HARMLESS_OPS:
         damaged = set()
     if D.damages_all(op, variant):
         damaged = set(ids)
     out = {}
-    obs, fail = D.oracle(fmt, data, base, damaged, ids, harmless=(op == "harmless"), style=style, out=out)
+    obs, fail = D.oracle(fmt, data, base, damaged, ids, harmless=(op in HARMLESS_OPS), style=style, out=out)
     if fail is None and obs[0] == "ok" and obs[1] != "ok" and op not in NO_VICTIM_RULE and len(damaged) == 1:
         why = victim_rule(src, fmt, d, vpath, path, victim[2], out["failsafe"].get(victim[2]), base, style, data)
         if why:
@@ -555,7 +575,7 @@ def run_spec(sources, spec):
         n = 1 + (h // 7) % 6
         out2 = {}
         with D.logcfg(n):
-            obs2, fail2 = D.oracle(fmt, data, base, damaged, ids, harmless=(op == "harmless"), style=style, out=out2)
+            obs2, fail2 = D.oracle(fmt, data, base, damaged, ids, harmless=(op in HARMLESS_OPS), style=style, out=out2)
         if obs2 != obs or out2 != out or (fail2 is not None):
             fail = ("logging-dependent", f"with logging configuration {n} ({LOGCFG_NAMES[n]}) the readers behave differently "
                                          f"than with a silent basyx logger: outcomes {obs} vs {obs2}"
@@ -567,7 +587,7 @@ def run_spec(sources, spec):
         rep = {"kind": "damage", "fmt": fmt, "data": txt(data), "all_ids": ids,
                "damaged_ids": sorted(x for x in damaged if x is not None),
                "base_canon": {i: base[i] for i in ids if i in base}, "operator": op, "path": list(path),
-               "vpath": list(vpath), "victim": victim[2], "harmless": op == "harmless", "style": style,
+               "vpath": list(vpath), "victim": victim[2], "harmless": op in HARMLESS_OPS, "style": style,
                "data_hex": data.hex() if isinstance(data, bytes) else None,
                "undamaged": txt(serialise(fmt, d)), "failure": fail[0],
                "logcfg": (1 + (h // 7) % 6) if fail[0] == "logging-dependent" else None,
